@@ -666,6 +666,12 @@ func OnceDo(o *sync.Once, f func()) {
 		}()
 		f()
 	})
+	// a Once that outlives the execution (a package-level table built on first use) has fired in an
+	// earlier execution of this process, or before the exploration began: Do returns at once and the
+	// function never runs here.  Either way the Once is done when Do has returned.
+	x.mu.Lock()
+	ob.onceSt = 2
+	x.mu.Unlock()
 }
 
 // CondWait models c.Wait() without ever blocking in the real sync.Cond: release
